@@ -46,10 +46,6 @@ def features(t, env, out=None, inline=False, seen=None, tagdefault=None):
         for c in t["comps"]:
             tg = c["type"].get("tag")
             if k == "CHOICE" and tg and tg[1] >= 128: out.add("choice_tag_ge128")
-            ck = c["type"]["k"]
-            if tg and (tg[2] == "EXPLICIT" or (tg[2] == "" and tagdefault in (None, "EXPLICIT"))) and (
-                    ck == "ENUMERATED" or (ck == "INTEGER" and c["type"].get("cons") and genmod.int_repr(c["type"]["cons"]) == "ulong")):
-                out.add("explicit_tag_own_descr")      # F49: explicit tag emitted twice
             features(c["type"], env, out, True, seen, tagdefault)
         if t.get("ext") is not None: out.add("ext:" + k)
     if k in ("SEQUENCE OF", "SET OF"):
